@@ -42,6 +42,8 @@ def prestate(td, name, pre):
         return scen.entry(td, name, '/old/' + name, '2001-01-01T00:00:00', 'f', data='OLD')
     if pre == 'pair_dir':
         return scen.entry(td, name, '/old/' + name, '2001-01-01T00:00:00', 'd')
+    if pre == 'files_only':
+        return [['d', td + '/files', 0o700]]          # a trash directory with files/ and no info/ (yet): what the first moments of another put look like
     if pre == 'orphan_f':
         return [['f', td + '/files/' + name, 'orphan'], ['d', td + '/info', 0o700]]
     if pre == 'orphan_d':
@@ -99,6 +101,9 @@ def judge(run, scn, res, victims, pre, shape, section):
         else:
             if sandbox.subtree(after, path) != orig and putlib.loose(sandbox.subtree(after, path)) != putlib.loose(orig):
                 run.fail('oracle', 'a failed trash-put did not leave its entry intact', dict(case, victim=path), key='failed-but-touched', section=section)
+    nofault = not any((st.get('plan') or {}).get(k) for st in (scn.get('steps') or []) for k in ('faults', 'fault', 'sysfault', 'sysfaults'))
+    if (section in ('lockstep-2', 'lockstep-3', 'free-running', 'sequential-state') or (section == 'replay' and nofault)) and ok != len(victims):
+        run.fail('oracle', 'no file-system error was injected, yet a trash-put failed', dict(case, successes=ok), key='put-failed-without-error', section=section)
     newpairs = [n for n, e in ea.items() if e['info'] is not None and e['payload'] is not None and not (eb.get(n, {}).get('info') is not None and eb.get(n, {}).get('payload') is not None)]
     if len(newpairs) != ok:
         run.fail('oracle', 'the number of new complete pairs differs from the number of successful puts',
@@ -135,7 +140,7 @@ def schedules_systematic(nops=14):
 
 def run(run, thorough):
     rng = run.rng
-    pres = ['empty', 'pair', 'pair_dir', 'orphan_f', 'orphan_d', 'orphan_l', 'info_only']
+    pres = ['empty', 'pair', 'pair_dir', 'orphan_f', 'orphan_d', 'orphan_l', 'info_only', 'files_only']
     # --- sequential history: many same-named entries, suffixes become random after 99
     n = 105 if thorough else 103
     tree = [['d', '/home/u', 0o755]]
